@@ -474,6 +474,8 @@ class MayRaise:
         if f[0] == "g":
             ref = f[1]
             if ref.startswith("builtin:") and ref[8:].split(".")[0] in TOTAL_BUILTINS:
+                if ref in ("builtin:min", "builtin:max") and ev.term[0] == "call" and len(ev.term[2]) == 1 and not any(k_ == "default" for k_, _v in ev.term[3]):
+                    return True, "%s of a possibly empty argument" % ref[8:]
                 return False, ""
             if ref.startswith("ext:") and ref[4:] in TOTAL_EXT:
                 return False, ""
